@@ -44,9 +44,13 @@ func verifC03(mode, maxCols, maxBody, L int, decoSel int) {
 		}
 		if nText <= 2 {
 			s := ""
-			n := vfChoice(name+".n", 3)
+			maxAtoms := 2
+			if nText == 2 && vfTier() == 0 {
+				maxAtoms = 1 // quick: the second text is a single atom
+			}
+			n := vfChoice(name+".n", maxAtoms+1)
 			for i := 0; i < n; i++ {
-				switch vfChoice(vfName(name+".a", i), 6) {
+				switch vfChoice(vfName(name+".a", i), 7) {
 				case 0:
 					s += "x"
 				case 1:
@@ -59,6 +63,8 @@ func verifC03(mode, maxCols, maxBody, L int, decoSel int) {
 					s += "​"
 				case 5:
 					s += "\t"
+				case 6:
+					s += "\U0001F44D\U0001F3FD" // one grapheme cluster of two wide runes (emoji + skin tone)
 				}
 			}
 			return s
